@@ -3,7 +3,7 @@
    REGENERATED from /repo on this run. *)
 From Coq Require Import List ZArith Bool String Lia.
 From RG.Base Require Import Outcome GoSlice.
-From RG.IR Require Import Val Print File RoundTrip Tables Quote.
+From RG.IR Require Import Val Print File RoundTrip Tables Quote FuncEnv.
 From RGW Require Import Gen_IR Gen_LoadDiff Inst_IR.
 Import ListNotations.
 Local Open Scope Z_scope.
@@ -121,6 +121,41 @@ Print Assumptions C05_history_leaves_precompiled_values.
 Theorem C05_convert_sites_agree : gen_convert_site_load = gen_convert_site_precompile /\ gen_wrapper_diff = [].
 Proof. exact (conj gen_convert_sites_agree gen_wrappers_agree). Qed.
 Print Assumptions C05_convert_sites_agree.
+
+(* Custom functions. The loader compiles a file's CustomDecls as a Go file of package gen_func_registered_pkg (it writes the
+   package clause itself), binds every function under (that package, name) and resolves the names the rules use under
+   (File.PkgPath, name); File.PkgPath is the package the producer of the IR type-checked the rules file as. Regenerated: the
+   three names and every link of the chain (C05_func_env_wired). Hence: every declared function a file's rules use is found,
+   with the IR from source and with the IR from the precompiler alike, WHATEVER package clause the rules file declares;
+   and (generic) an IR that carries any other PkgPath finds none of them in a fresh engine.
+   Last conjunct: LoadFromIR has no type-checked rules package to hand to the loader (gen_load_diff = config.pkg); the
+   package of the compiled declarations -- the same declarations, checked under the same name -- stands in for it, so a
+   type the rules file declares (Implements("gorules.T")) resolves on both paths. *)
+Theorem C05_func_env_wired :
+  forallb (fun c : string * string => String.eqb (snd c) (gen_func_loaded_var ++ ".Pkg.Path()")%string) gen_func_register_calls = true
+  /\ existsb (fun c : string * string => String.eqb (fst c) "AddFunc"%string) gen_func_register_calls = true
+  /\ gen_func_stray_registrations = []
+  /\ gen_func_lookups <> []
+  /\ forallb (fun c : string * string => String.eqb (snd c) "l.file.PkgPath"%string) gen_func_lookups = true
+  /\ gen_file_pkgpath_sources = ["conv.pkg.Path()"%string] /\ gen_converter_pkg_sources = ["ctx.Pkg"%string]
+  /\ gen_loader_pkg_fallback = [("l.pkg == nil => l.pkg = " ++ gen_func_loaded_var ++ ".Pkg")%string].
+Proof. exact gen_func_env_wired. Qed.
+Print Assumptions C05_func_env_wired.
+
+Theorem C05_custom_functions_resolve :
+  forall (fn : Type) (decls : list (string * fn)) (uses : list string) (e : env fn),
+    (forall n, In n uses -> In n (map fst decls)) ->
+    resolve fn gen_ir_pkg_from_source uses (register fn gen_func_registered_pkg decls e) <> None
+    /\ resolve fn gen_ir_pkg_from_precompiler uses (register fn gen_func_registered_pkg decls e)
+       = resolve fn gen_ir_pkg_from_source uses (register fn gen_func_registered_pkg decls e).
+Proof. exact gen_custom_functions_resolve. Qed.
+Print Assumptions C05_custom_functions_resolve.
+
+Theorem C05_custom_functions_need_the_registration_package :
+  forall (fn : Type) (pkg file_pkg : string) (decls : list (string * fn)) (uses : list string),
+    file_pkg <> pkg -> uses <> [] -> resolve fn file_pkg uses (register fn pkg decls []) = None.
+Proof. exact unresolved_under_other_package. Qed.
+Print Assumptions C05_custom_functions_need_the_registration_package.
 
 (* String quoting. The literal trees above carry DECODED strings; the decoding is Go's reading of an interpreted string
    literal (unquote_go). It gives back the string for EVERY quoter that writes it piece by piece as a raw byte, a simple
